@@ -32,23 +32,31 @@ abbrev KD := K DS
 def lg (site : String) (args : List Nat) : KD Unit := fun s =>
   (.ok (), { s with log := s.log.push (site ++ "(" ++ ",".intercalate (args.map toString) ++ ")") })
 
-def look {β : Type} (tbl : Array β) (i : Nat) : KD β :=
+/-- the exception a table entry `X` / a thunk `X` throws -/
+def excE2 : Fault := .exception (.other "E2")
+
+/-- a table entry: `none` = the continuation throws `E2` there -/
+def look {β : Type} (tbl : Array (Option β)) (i : Nat) : KD β :=
   match tbl[i]? with
-  | some v => pure v
+  | some (some v) => pure v
+  | some none => K.fault excE2
   | none => K.fault .oob
 
-def fn1 {β : Type} (site : String) (tbl : Array β) : Nat → KD β := fun x => do
+def fn1 {β : Type} (site : String) (tbl : Array (Option β)) : Nat → KD β := fun x => do
   lg site [x]
   look tbl x
-def fn2 {β : Type} (site : String) (tbl : Array β) : Nat → Nat → KD β := fun x y => do
+def fn2 {β : Type} (site : String) (tbl : Array (Option β)) : Nat → Nat → KD β := fun x y => do
   lg site [x, y]
   look tbl (x * 3 + y)
-def fn3 {β : Type} (site : String) (tbl : Array β) : Nat → Nat → Nat → KD β := fun x y z => do
+def fn3 {β : Type} (site : String) (tbl : Array (Option β)) : Nat → Nat → Nat → KD β := fun x y z => do
   lg site [x, y, z]
   look tbl ((x * 3 + y) * 3 + z)
-def thunk {β : Type} (site : String) (v : β) : Unit → KD β := fun _ => do
+/-- a thunk: `none` = it throws `E2` -/
+def thunk {β : Type} (site : String) (v : Option β) : Unit → KD β := fun _ => do
   lg site []
-  pure v
+  match v with
+  | some x => pure x
+  | none => K.fault excE2
 
 /-! ### reading and printing values -/
 abbrev P (α : Type) := List Char → Option (α × List Char)
@@ -77,6 +85,9 @@ instance : Rd V3 := ⟨fun
   | 'B' :: r => (rd (α := Nat) r).map fun (x, r') => (⟨1, x⟩, r')
   | 'C' :: r => (rd (α := Nat) r).map fun (x, r') => (⟨2, x⟩, r')
   | _ => none⟩
+instance : Rd Unit := ⟨fun
+  | 'u' :: r => some ((), r)
+  | _ => none⟩
 instance : Rd Bool := ⟨fun
   | 't' :: r => some (true, r)
   | 'f' :: r => some (false, r)
@@ -98,11 +109,20 @@ instance {α : Type} [Rd α] : Rd (List α) := ⟨fun
   | '[' :: r => rdListGo (r.length + 1) r []
   | _ => none⟩
 
-def rdN {α : Type} [Rd α] : Nat → List Char → List α → Option (List α × List Char)
+/-- a value or `X` -/
+structure OrX (α : Type) where
+  val : Option α
+
+instance {α : Type} [Rd α] : Rd (OrX α) := ⟨fun
+  | 'X' :: r => some (⟨none⟩, r)
+  | cs => (rd cs).map fun (x, r') => (⟨some x⟩, r')⟩
+
+def rdN {α : Type} [Rd α] : Nat → List Char → List (Option α) → Option (List (Option α) × List Char)
   | 0, cs, acc => some (acc.reverse, cs)
+  | n + 1, 'X' :: r, acc => rdN n r (none :: acc)
   | n + 1, cs, acc =>
     match rd cs with
-    | some (x, r) => rdN n r (x :: acc)
+    | some (x, r) => rdN n r (some x :: acc)
     | none => none
 
 /-- a whole token as one value -/
@@ -111,13 +131,28 @@ def tok (α : Type) [Rd α] (s : String) : Option α :=
   | some (x, []) => some x
   | _ => none
 
-/-- a whole token as a table of `n` values -/
-def tbl (α : Type) [Rd α] (n : Nat) (s : String) : Option (Array α) :=
+/-- a whole token as one value or `X` -/
+def tokx (α : Type) [Rd α] (s : String) : Option (Option α) :=
+  if s = "X" then some none else (tok α s).map some
+
+/-- a whole token as a table of `n` entries (value or `X`) -/
+def tbl (α : Type) [Rd α] (n : Nat) (s : String) : Option (Array (Option α)) :=
   match rdN n s.toList [] with
   | some (l, []) => some l.toArray
   | _ => none
 
+/-- value categories: one letter for all arguments -/
 def cat? (s : String) : Option Unit := if s = "L" ∨ s = "C" ∨ s = "R" then some () else none
+/-- lvalue categories only -/
+def catLC? (s : String) : Option Unit := if s = "L" ∨ s = "C" then some () else none
+/-- one letter per argument (all nine combinations), or one for both -/
+def cat2? (s : String) : Option Unit :=
+  if s.length = 1 then cat? s
+  else if s.length = 2 ∧ s.toList.all (fun c => c = 'L' ∨ c = 'C' ∨ c = 'R') then some () else none
+/-- one letter per argument (the combinations the harness instantiates), or one for all three -/
+def cat3? (s : String) : Option Unit :=
+  if s.length = 1 then cat? s
+  else if ["LLL", "CCC", "RRR", "RLL", "LRL", "LLR", "RRL", "RLR", "LRR"].contains s then some () else none
 
 instance : Sh Nat := ⟨toString⟩
 instance {α : Type} [Sh α] : Sh (Option α) := ⟨fun | none => "N" | some x => "J" ++ sh x⟩
@@ -125,6 +160,7 @@ instance {φ α : Type} [Sh φ] [Sh α] : Sh (Either φ α) := ⟨fun | .failure
 instance : Sh V3 := ⟨fun v => (if v.idx.val = 0 then "A" else if v.idx.val = 1 then "B" else "C") ++ toString (show Nat from v.val)⟩
 instance : Sh Bool := ⟨fun b => if b then "t" else "f"⟩
 instance : Sh Unit := ⟨fun _ => "u"⟩
+instance : Sh String := ⟨id⟩
 instance {α : Type} [Sh α] : Sh (List α) := ⟨fun l => "[" ++ String.join (l.map sh) ++ "]"⟩
 
 def showLog (l : Array String) : String := if l.isEmpty then "-" else ";".intercalate l.toList
@@ -142,9 +178,16 @@ def run2 {ρ : Type} [Sh ρ] (m₁ m₂ : KD ρ) : String := run1 m₁ ++ " || "
 /-! ### continuations that need more than a table -/
 
 /-- the `k`-th thunk of `first_success` -/
-def nthThunk (i : Nat) (e : Either Nat Nat) : Unit → KD (Either Nat Nat) := fun _ => do
+def nthThunk (i : Nat) (e : OrX (Either Nat Nat)) : Unit → KD (Either Nat Nat) := fun _ => do
   lg "n" [i]
-  pure e
+  match e.val with
+  | some r => pure r
+  | none => K.fault excE2
+
+/-- the body of `loop`: logs; throws where the table says `X` -/
+def loopBody (tbl : Array (Option Unit)) : Nat → KD Unit := fun x => do
+  lg "b" [x]
+  look tbl x
 
 /-- `next` of `loop`: pops the queue; throws the uncaught exception type when it is empty -/
 def popNext : Unit → KD (Either Nat Nat) := fun _ s =>
@@ -195,20 +238,20 @@ def handle1 (toks : List String) : Option String :=
     cat? c; let o1 ← tok (Option Nat) o1; let f ← tbl Nat 3 f
     pure (run1 (Opt.apply1 (fn1 "f" f) o1))
   | ["o.apply2", c, o1, o2, f] => do
-    cat? c; let o1 ← tok (Option Nat) o1; let o2 ← tok (Option Nat) o2; let f ← tbl Nat 9 f
+    cat2? c; let o1 ← tok (Option Nat) o1; let o2 ← tok (Option Nat) o2; let f ← tbl Nat 9 f
     pure (run1 (Opt.apply2 (fn2 "f" f) o1 o2))
   | ["o.apply3", c, o1, o2, o3, f] => do
-    cat? c; let o1 ← tok (Option Nat) o1; let o2 ← tok (Option Nat) o2; let o3 ← tok (Option Nat) o3
+    cat3? c; let o1 ← tok (Option Nat) o1; let o2 ← tok (Option Nat) o2; let o3 ← tok (Option Nat) o3
     let f ← tbl Nat 27 f
     pure (run1 (Opt.apply3 (fn3 "f" f) o1 o2 o3))
   | ["o.filter", c, o, p] => do
     cat? c; let o ← tok (Option Nat) o; let p ← tbl Bool 3 p
     pure (run1 (Opt.filter o (fn1 "p" p)))
   | ["o.alt", c, o, a] => do
-    cat? c; let o ← tok (Option Nat) o; let a ← tok (Option Nat) a
+    cat? c; let o ← tok (Option Nat) o; let a ← tokx (Option Nat) a
     pure (run1 (Opt.alternative o (thunk "a" a)))
   | ["o.combine", c, o1, o2, f] => do
-    cat? c; let o1 ← tok (Option Nat) o1; let o2 ← tok (Option Nat) o2; let f ← tbl Nat 9 f
+    cat2? c; let o1 ← tok (Option Nat) o1; let o2 ← tok (Option Nat) o2; let f ← tbl Nat 9 f
     pure (run1 (Opt.combine o1 o2 (fn2 "f" f)))
   | ["o.cat", c, l] => do
     cat? c; let l ← tok (List (Option Nat)) l
@@ -217,26 +260,26 @@ def handle1 (toks : List String) : Option String :=
     cat? c; let l ← tok (List (Option Nat)) l
     pure (run1 (Opt.sequence (σ := DS) l))
   | ["o.from", c, o, d] => do
-    cat? c; let o ← tok (Option Nat) o; let d ← tok Nat d
+    cat? c; let o ← tok (Option Nat) o; let d ← tokx Nat d
     pure (run1 (Opt.from o (thunk "d" d)))
   | ["o.maybe", c, o, d, t] => do
-    cat? c; let o ← tok (Option Nat) o; let d ← tok Nat d; let t ← tbl Nat 3 t
+    cat? c; let o ← tok (Option Nat) o; let d ← tokx Nat d; let t ← tbl Nat 3 t
     pure (run1 (Opt.maybe o (thunk "d" d) (fn1 "t" t)))
   | ["o.maybe_void", c, o] => do
     cat? c; let o ← tok (Option Nat) o
     pure (run1 (Opt.maybeVoid o (fun x => lg "t" [x])))
   | ["o.mm1", c, o1, d, t] => do
-    cat? c; let o1 ← tok (Option Nat) o1; let d ← tok Nat d; let t ← tbl Nat 3 t
+    cat? c; let o1 ← tok (Option Nat) o1; let d ← tokx Nat d; let t ← tbl Nat 3 t
     pure (run1 (Opt.maybeMulti1 (thunk "d" d) (fn1 "t" t) o1))
   | ["o.mm2", c, o1, o2, d, t] => do
-    cat? c; let o1 ← tok (Option Nat) o1; let o2 ← tok (Option Nat) o2; let d ← tok Nat d; let t ← tbl Nat 9 t
+    cat2? c; let o1 ← tok (Option Nat) o1; let o2 ← tok (Option Nat) o2; let d ← tokx Nat d; let t ← tbl Nat 9 t
     pure (run1 (Opt.maybeMulti2 (thunk "d" d) (fn2 "t" t) o1 o2))
   | ["o.mm3", c, o1, o2, o3, d, t] => do
-    cat? c; let o1 ← tok (Option Nat) o1; let o2 ← tok (Option Nat) o2; let o3 ← tok (Option Nat) o3
-    let d ← tok Nat d; let t ← tbl Nat 27 t
+    cat3? c; let o1 ← tok (Option Nat) o1; let o2 ← tok (Option Nat) o2; let o3 ← tok (Option Nat) o3
+    let d ← tokx Nat d; let t ← tbl Nat 27 t
     pure (run1 (Opt.maybeMulti3 (thunk "d" d) (fn3 "t" t) o1 o2 o3))
   | ["o.make_if", b, v] => do
-    let b ← tok Bool b; let v ← tok Nat v
+    let b ← tok Bool b; let v ← tokx Nat v
     pure (run1 (Opt.makeIf b (thunk "f" v)))
   | ["o.cmp", a, b] => do
     let a ← tok (Option Nat) a; let b ← tok (Option Nat) b
@@ -273,10 +316,10 @@ def handle1 (toks : List String) : Option String :=
     cat? c; let e1 ← tok (Either Nat Nat) e1; let f ← tbl Nat 3 f
     pure (run1 (Either.apply1 (fn1 "f" f) e1))
   | ["e.apply2", c, e1, e2, f] => do
-    cat? c; let e1 ← tok (Either Nat Nat) e1; let e2 ← tok (Either Nat Nat) e2; let f ← tbl Nat 9 f
+    cat2? c; let e1 ← tok (Either Nat Nat) e1; let e2 ← tok (Either Nat Nat) e2; let f ← tbl Nat 9 f
     pure (run1 (Either.apply2 (fn2 "f" f) e1 e2))
   | ["e.apply3", c, e1, e2, e3, f] => do
-    cat? c; let e1 ← tok (Either Nat Nat) e1; let e2 ← tok (Either Nat Nat) e2; let e3 ← tok (Either Nat Nat) e3
+    cat3? c; let e1 ← tok (Either Nat Nat) e1; let e2 ← tok (Either Nat Nat) e2; let e3 ← tok (Either Nat Nat) e3
     let f ← tbl Nat 27 f
     pure (run1 (Either.apply3 (fn3 "f" f) e1 e2 e3))
   | ["e.mapf", c, e, f] => do
@@ -286,13 +329,16 @@ def handle1 (toks : List String) : Option String :=
     let l ← tok (List (Either Nat Nat)) l
     pure (run1 (Either.sequence (σ := DS) l))
   | ["e.first", l] => do
-    let l ← tok (List (Either Nat Nat)) l
+    let l ← tok (List (OrX (Either Nat Nat))) l
     pure (run1 (Either.firstSuccess ((List.range l.length).zipWith nthThunk l)))
   | ["e.loop", l] => do
     let l ← tok (List (Either Nat Nat)) l
     pure (runWith { queue := l } (Either.loop (l.length + 2) popNext (fun x => lg "b" [x])))
+  | ["e.loop", l, body] => do
+    let l ← tok (List (Either Nat Nat)) l; let body ← tbl Unit 3 body
+    pure (runWith { queue := l } (Either.loop (l.length + 2) popNext (loopBody body)))
   | ["e.from_opt", c, o, f] => do
-    cat? c; let o ← tok (Option Nat) o; let f ← tok Nat f
+    cat? c; let o ← tok (Option Nat) o; let f ← tokx Nat f
     pure (run1 (Either.fromOptional o (thunk "f" f)))
   | ["e.try", r, t] => do
     let r ← tok Outcome r; let t ← tbl Nat 3 t
@@ -317,7 +363,7 @@ def handle1 (toks : List String) : Option String :=
     cat? c; let v ← tok V3 v; let f ← tbl Nat 9 f
     pure (run1 (Var.apply (fun i (x : Nat) => fn2 "f" f i.val x) v))
   | ["v.apply2", c, v1, v2, f] => do
-    cat? c; let v1 ← tok V3 v1; let v2 ← tok V3 v2; let f ← tbl Nat 81 f
+    cat2? c; let v1 ← tok V3 v1; let v2 ← tok V3 v2; let f ← tbl Nat 81 f
     pure (run1 (Var.apply2 (fun i (x : Nat) j (y : Nat) => do
       lg "f" [i.val, x, j.val, y]
       look f (((i.val * 3 + x) * 3 + j.val) * 3 + y)) v1 v2))
@@ -336,6 +382,59 @@ def handle1 (toks : List String) : Option String :=
   | ["v.index", v] => do
     let v ← tok V3 v
     pure (run1 (pure (Var.typeIndex v)))
+  -- the same object as both operands -------------------------------------------------------
+  | ["o.combine.same", c, o, f] => do
+    catLC? c; let o ← tok (Option Nat) o; let f ← tbl Nat 9 f
+    pure (run1 (Opt.combine o o (fn2 "f" f)))
+  | ["o.apply2.same", c, o, f] => do
+    catLC? c; let o ← tok (Option Nat) o; let f ← tbl Nat 9 f
+    pure (run1 (Opt.apply2 (fn2 "f" f) o o))
+  | ["o.mm2.same", c, o, d, t] => do
+    catLC? c; let o ← tok (Option Nat) o; let d ← tokx Nat d; let t ← tbl Nat 9 t
+    pure (run1 (Opt.maybeMulti2 (thunk "d" d) (fn2 "t" t) o o))
+  | ["o.alt.same", c, o] => do
+    catLC? c; let o ← tok (Option Nat) o
+    pure (run1 (Opt.alternative o (thunk "a" (some o))))
+  | ["o.cmp.same", a] => do
+    let a ← tok (Option Nat) a
+    pure (run1 do
+      let e ← Opt.eq natEq a a; let n ← Opt.ne natEq a a; let l ← Opt.lt natLt a a
+      pure [e, n, l])
+  | ["e.apply2.same", c, e, f] => do
+    catLC? c; let e ← tok (Either Nat Nat) e; let f ← tbl Nat 9 f
+    pure (run1 (Either.apply2 (fn2 "f" f) e e))
+  | ["v.cmp.same", l] => do
+    let l ← tok V3 l
+    pure (run1 (pure [Var.eq (fun _ => natEq) l l, Var.ne (fun _ => natEq) l l, Var.lt (fun _ => natLt) l l]))
+  | ["v.compare.same", l, cmp] => do
+    let l ← tok V3 l; let cmp ← tbl Bool 27 cmp
+    pure (run1 (Var.compare l l (fun i (x y : Nat) => fn3 "c" cmp i.val x y)))
+  -- continuations returning a reference into their argument ----------------------------------
+  | ["o.maybe_ref", c, o, d] => do
+    catLC? c; let o ← tok (Option Nat) o; let d ← tok Nat d
+    pure (run1 (Opt.maybe o (fun _ => do lg "d" []; pure s!"d:{d}") (fun x => do lg "t" [x]; pure s!"in:{x}")))
+  | ["e.match_ref", c, e] => do
+    catLC? c; let e ← tok (Either Nat Nat) e
+    pure (run1 (Either.match_ e (fun x => do lg "ff" [x]; pure s!"in:{x}") (fun x => do lg "fs" [x]; pure s!"in:{x}")))
+  | ["v.match_ref", c, v] => do
+    catLC? c; let v ← tok V3 v
+    pure (run1 (Var.match_ v (fun i (x : Nat) => do
+      lg (if i.val = 0 then "a" else if i.val = 1 then "b" else "c") [x]; pure s!"in:{x}")))
+  | ["v.apply_ref", c, v] => do
+    catLC? c; let v ← tok V3 v
+    pure (run1 (Var.apply (fun i (x : Nat) => do lg "f" [i.val, x]; pure s!"in:{x}") v))
+  -- other container types --------------------------------------------------------------------
+  | ["o.cat.ld", c, l] => do
+    cat? c; let l ← tok (List (Option Nat)) l
+    pure (run1 (Opt.cat (σ := DS) l))
+  | ["o.seq.dl", c, l] => do
+    cat? c; let l ← tok (List (Option Nat)) l
+    pure (run1 (Opt.sequence (σ := DS) l))
+  | ["v.apply3", c, v1, v2, v3, f] => do
+    cat3? c; let v1 ← tok V3 v1; let v2 ← tok V3 v2; let v3 ← tok V3 v3; let f ← tbl Nat 27 f
+    pure (run1 (Var.apply3 (fun i (x : Nat) j (y : Nat) k (z : Nat) => do
+      lg "f" [i.val, x, j.val, y, k.val, z]
+      look f ((x * 3 + y) * 3 + z)) v1 v2 v3))
   | _ => none
 
 /-- the `i`-th table D×D → D in counting order (most significant digit first) -/
